@@ -172,6 +172,18 @@ func H_c09_refs() {
 			x = append(x, c)
 		}
 	}
+	if pad := vp.ParamInt("pad", 0); pad > 0 {
+		// a long unrelated paragraph in front of X: offsets in the second layout exceed every small constant
+		pre := make([]byte, 0, pad+2+len(x))
+		for i := 0; i < pad; i++ {
+			if i%40 == 39 {
+				pre = append(pre, '\n')
+			} else {
+				pre = append(pre, 'x')
+			}
+		}
+		x = append(append(pre, '\n', '\n'), x...)
+	}
 	// a window of symbolic bytes inside X (outside the claim's exclusions: no code/HTML opener, no new definition)
 	if w := vp.ParamInt("window", 0); w > 0 {
 		p := vp.ParamInt("pos", 0)
